@@ -8,6 +8,7 @@ package vsssim
 
 import (
 	"bytes"
+	"crypto/sha256"
 	"fmt"
 	"math/big"
 
@@ -353,6 +354,7 @@ func (Engine) RunOne(t *core.Tape, prop, tier string, info *core.RunInfo) *core.
 			e.kind = "corrupted-in-flight"
 			info.Fault("corrupt-deal")
 		}
+		info.Logf("dealer -> v%d: %s cipher#%x dh#%x", to, e.kind, sha256.Sum256(e.Cipher), sha256.Sum256(e.DH))
 		net.Send(dealerID, to, "deal", &dealMsg{e, plain}, cloneDeal)
 		if kind == "replayed-second-deal" {
 			e2, p2, _ := mkDeal(i)
